@@ -337,7 +337,6 @@ def run(run_, tier):
     run_.assume("A1/A3: float products int(c*n) use a monotone relative-error rounding model (exact at integers < 2^53); "
                 "n_warm_up_iter <= 2^40, slow_window_multiplier in [1, 1024]")
     run_.assume("WindowedWarmUpStager precondition: n_init_slow_window_iter >= 1, fast stage sizes >= 0, slow_window_multiplier >= 1")
-    run_.trust("f-string keys 'Slow adaptive (i/n)' are distinct for distinct i (string formatting not modelled)")
     import json as _json
     run_.replay_for("stagers.WarmUpStager", lambda w: {"script": "c16_stager.py", "args": [_json.dumps(w or {}), "plain"]})
     run_.replay_for("stagers.WindowedWarmUpStager", lambda w: {"script": "c16_stager.py", "args": [_json.dumps(w or {}), "windowed"]})
